@@ -434,6 +434,9 @@ class Gen:
             v = r.choice(ints)
             if r.random() < 0.35:
                 return ("assign", v, ("bin", "+", ("var", v), ("num", 1)))
+            if getattr(self.p, "strict_ints", False):
+                # n = [n * 0 + e]: the same value, but the compiler must schedule it exactly once (timing-strict)
+                return ("assign", v, ("bin", "+", ("bin", "*", ("var", v), ("num", 0)), self.expr(allow_last=after_match)))
             return ("assign", v, self.expr(allow_last=after_match))
         if k == "assigns":
             v = r.choice(strs)
@@ -457,12 +460,14 @@ class Gen:
         first, nullable, cont = set(), True, set()
         prev_cont = set()
         consumed = False
+        self.prev_definite = False
         for i in range(n):
             s = self.stmt(depth, loops, prev_cont, after_match=consumed)
             if s is None:
                 continue
             st, f, c, nl, term = s
             stmts.append(st)
+            self.prev_definite = st[0] == "match" and st[1][0] in ("lit", "casei", "bin")
             if f is not None:
                 if nullable:
                     first |= f
@@ -472,6 +477,20 @@ class Gen:
                     consumed = True
             if term:
                 break
+        if getattr(self.p, "closed_blocks", False) and stmts and depth > 0:
+            # known finding C01 (lost finish actions): actions that follow a statement which can match nothing at the end of a
+            # nested block (inside the block or right behind the enclosing statement) are lost on the path where it matches
+            # nothing; close such blocks with a delimiter
+            j = len(stmts)
+            while j > 0 and stmts[j - 1][0] in ("assign", "assigns", "delete", "hook", "appc") or (j > 0 and stmts[j - 1][0] == "if" and all_actions(stmts[j - 1])):
+                j -= 1
+            if j > 0 and stmts[j - 1][0] in ("optional", "match", "append", "if", "try", "foreach", "case") and last_nullable(stmts[j - 1]):
+                ds = [x for x in DELIMS[:6] if x not in prev_cont]
+                d = bytes([ds[0] if ds else 35])
+                stmts.append(("match", ("lit", d)))
+                if nullable:
+                    first |= {d[0]}
+                nullable = False; prev_cont = set()
         if min_consume and nullable:
             bs = self.lit_bytes(alphabet=DELIMS[:6])
             bs = bytes([b for b in bs if b not in prev_cont]) or bytes([r.choice([x for x in DELIMS[:6] if x not in prev_cont] or [59])])
@@ -525,7 +544,9 @@ class Gen:
             body_opts = []
             a = self.action(after_match)
             if a: body_opts += [[a]] * 2
-            if loops: body_opts += [[("break", None)]] * 3
+            # (known finding C01: a conditional break deferred onto the consuming transition of the statement that follows
+            # swallows that byte; with safe_break it is only generated right behind a literal match, where it runs at once)
+            if loops and (not getattr(self.p, "safe_break", False) or getattr(self, "prev_definite", False)): body_opts += [[("break", None)]] * 3
             body_opts += [[("finish", r.choice([None] + self.fcodes))]]
             body = r.choice(body_opts)
             els = None
@@ -561,6 +582,11 @@ class Gen:
         if k == "optional":
             body, f, c, n = self.block(depth + 1, loops)
             if f & prev_cont:
+                return None
+            if getattr(self.p, "plain_heads", False) and (body[0][0] not in ("match", "append", "case") or
+                                                          (body[0][0] == "case" and any("else" in pats for pats, _ in body[0][1]))):
+                # known finding C01 (lost actions): actions at the head of a block that heads an optional body are lost;
+                # a case with an else clause at the head makes the optional ambiguous (C09)
                 return None
             return ("optional", body), f, c | prev_cont, True, False
         if k == "case":
@@ -608,6 +634,10 @@ class Gen:
                 return None
             handler, hf, hc, hn = self.block(depth + 1, loops, min_consume=False)
             reasons = r.choice([None, ["nomatch"], ["outofspace"], ["nomatch", "outofspace"]])
+            if getattr(self.p, "safe_appc", False) and (has_kind(body, "appc") or has_kind(handler, "appc")):
+                # known finding C01: an expression append that overflows right behind a consumed byte hands that byte to the
+                # outofspace handler again; with safe_appc such appends never have an outofspace handler
+                reasons = ["nomatch"]
             return ("try", body, reasons, handler), f | hf, c | hc, n, False
         if k == "foreach":
             body, f, c, n = self.block(depth + 1, loops)
@@ -642,7 +672,70 @@ class Gen:
     def program(self):
         self.decls()
         body, f, c, n = self.block(0, [])
+        if getattr(self.p, "closed_end", False) and body and body[-1][0] not in ("finish", "break"):
+            # the end of the program is not left to lookahead: a final delimiter that cannot continue what precedes it
+            # (a program whose last statement ends by lookahead never reports DONE from feed: known finding C01)
+            ds = [x for x in b"\n;#@!:," if x not in c]
+            body.append(("match", ("lit", bytes([ds[0] if ds else 10]))))
         return {"outs": self.outs, "hooks": self.hooks, "finish_codes": self.fcodes, "yield_codes": self.ycodes, "body": body}
+
+
+def has_kind(stmts, kind):
+    for s in stmts:
+        if s[0] == kind:
+            return True
+        subs = []
+        k = s[0]
+        if k == "loop": subs = [s[2]]
+        elif k == "case": subs = [b for _, b in s[1]]
+        elif k == "gcase": subs = [b for _, _, b in s[1]]
+        elif k == "optional": subs = [s[1]]
+        elif k == "try": subs = [s[1], s[3]]
+        elif k == "foreach": subs = [s[1], s[2]]
+        elif k == "if": subs = [b for _, b in s[1]] + ([s[2]] if s[2] else [])
+        if any(has_kind(b, kind) for b in subs):
+            return True
+    return False
+
+
+def all_actions(s):
+    """an if statement made of actions only (it becomes a conditional action)"""
+    def acts(b):
+        return all(x[0] in ("assign", "assigns", "delete", "hook", "appc", "finish", "break") or (x[0] == "if" and all_actions(x)) for x in b)
+    return all(acts(b) for _, b in s[1]) and acts(s[2] or [])
+
+
+def pat_nullable(p):
+    def rn(R):
+        k = R[0]
+        if k in ("c", "cls", "set", "any"): return False
+        if k == "seq": return all(rn(x) for x in R[1])
+        if k == "alt": return any(rn(x) for x in R[1])
+        if k in ("star", "opt"): return True
+        if k == "plus": return rn(R[1])
+        if k == "rep": return R[2] == 0 or rn(R[1])
+        return False
+    k = p[0]
+    if k in ("re", "bre"): return rn(p[1])
+    if k == "concat": return all(pat_nullable(x) for x in p[1])
+    if k in ("lit", "casei", "bin"): return len(p[1]) == 0
+    return False
+
+
+def last_nullable(s):
+    """can this statement complete without consuming anything (its end is then found by lookahead from its very start)?"""
+    k = s[0]
+    if k == "optional": return True
+    if k == "match": return pat_nullable(s[1])
+    if k == "append": return pat_nullable(s[2])
+    def blk(b):
+        cons = [x for x in b if x[0] not in ("assign", "assigns", "delete", "hook", "appc", "finish", "break", "yield")]
+        return all(last_nullable(x) for x in cons)
+    if k == "if": return any(blk(b) for _, b in s[1]) or s[2] is None or blk(s[2])
+    if k == "try": return blk(s[1]) or blk(s[3])
+    if k == "foreach": return blk(s[1])
+    if k == "case": return any(blk(b) for pats, b in s[1] if "else" in pats)
+    return False
 
 
 def gen_program(rng, profile=None):
